@@ -20,7 +20,7 @@ fn coord(rng: &mut Rng, size: f64) -> f32 {
     }) as f32
 }
 
-fn gen_path(rng: &mut Rng, w: i32, h: i32, far: bool) -> Path {
+pub fn gen_path(rng: &mut Rng, w: i32, h: i32, far: bool) -> Path {
     let (wf, hf) = (w as f64, h as f64);
     let mut pb = PathBuilder::new();
     let nsub = 1 + rng.below(2);
